@@ -15,7 +15,7 @@ THEOREMS = {
     "C03": ["C03.step", "C03.upgrade_run", "C03.downgrade_run", "C03.run_up", "C03.run_down", "C03.init",
             "C03.all_applied_rows", "C03.none_applied_rows", "C03.applied_iff_requires",
             "Lemmas.Rev.step_up", "Lemmas.Rev.step_down", "Lemmas.Rev.mem_unmergeTo", "Lemmas.Rev.mem_mergeFrom", "C03.rows_history", "C03.rowsOk_sound", "C03.traceOk_sound"],
-    "C05": ["C05.single", "C05.single_gen", "C05.several", "C05.base", "C05.stamp_one", "C05.stamp_several", "C05.stamp_heads",
+    "C05": ["C05.single", "C05.single_gen", "C05.several", "C05.base", "C05.stamp_one", "C05.stamp_several", "C05.stamp_heads", "C05.stamp_heads_history",
             "C05.stamp_base", "C05.stampRevs_ids", "C05.stampOk_sound", "C05.lineage_history", "C05.stamp_fold", "C05.sharesLineage_iff",
             "Lemmas.Rev.fold_ok", "Lemmas.Rev.loaded_of_load"],
     "C15": ["C15.cyclic_rejected", "C15.detect_rejects_cycle", "C15.acyclic_accepted", "C15.acyclic_loads",
